@@ -28,6 +28,11 @@ CLAIMED = {
             "and a merged value stored exactly when it differs from the OLD value (R3); steps<max guards processing with the increment, has_stabilized <=> empty worklist (R4); priority lists contain every node (R5). "
             "Edits that only change the processing order stay silent (seeded negative control). Monotonicity/finite height of clients is not decided.",
             "3/C07", ""),
+    "C08": ("per-Jmp-variant set of constructed Edge variants (callee closure over GraphBuilder methods) vs. the specification table; path conditions of stub/call edges; endpoint provenance of the call/return linkage; crate-wide who-may-call of add_node/add_edge/update_edge on CFG-typed graphs; argument pass-through of the untaken-conditional marking; loop shape and stage order",
+            "Decides the edge tables of the CFG builder: edge kinds per jump kind with the conditions for stub/call/return-linkage edges, block node pairs and the Block edge (R1); only GraphBuilder adds nodes/edges and parallel edges "
+            "are never merged (R2); the fall-through edge carries the untaken conditional into Edge::Jump unchanged (R3); all blocks/return sites/queued block ends are visited, stages run in dependency order and a node pair is "
+            "created only on a lookup miss (R4). The exact edge multiset of a concrete program is not decided.",
+            "3/C08", ""),
     "C09": ("block-target slot universe derived from the Jmp type definition; slot-coverage sibling cross-check over the four passes that repair/follow/rename block targets (bindings followed through nested destructuring); per-term-level insertion analysis of the duplicate-tid pass; statement-order analysis of normalize_basic",
             "Decides slot agreement and pass order of basic normalisation: every pass over block targets treats every Tid/Option<Tid> field of Jmp (except the callee) and Blk.indirect_jmp_targets (R1); duplicate removal "
             "covers all five term levels in one set and block cloning re-suffixes block/def/jmp ids (R2); normalize_basic runs all five passes with dedup, sink creation and reference repair before block duplication (R3); "
@@ -40,6 +45,16 @@ CLAIMED = {
             "and reset at calls/returns (R3); control-flow propagation retargets call returns without known conditions, invalidates the precondition for every defining variant, keeps edge-condition "
             "polarity and never bypasses blocks with defs (R4). Each clause is necessary for behaviour preservation; semantic equivalence and the algebraic rewrites are not decided.",
             "3/C10", ""),
+    "C14": ("Expression-slot universe derived from the Def/Jmp type definitions; slot-coverage of the read-flag setters per transfer function (receiver must be the returned state; order before the register overwrite); loop-shape analysis of the entry-state constructor; field-wise join analysis of AccessPattern::merge and the map strategy read from the field type; guard vocabulary of the parameter extraction",
+            "Decides the conditions without which a register parameter cannot be recorded: every parameter register (integer and float inputs) is tracked from the entry (R1); every Expression slot of Def/Jmp is read-flagged "
+            "on the returned state before the defined register is overwritten (R2); tracked ids are merged with the union strategy and flags joined with || (R3); extraction keeps every accessed register parameter (R4). "
+            "The path-sensitive 'read before overwritten on some path' is not decided.",
+            "3/C14", ""),
+    "C15": ("match tables and guards of cwe_476::Context and the TaintAnalysis defaults compared with the rows of the property (sink variants derived from the Def type; state-before-definition provenance of the evaluated state; both positions of (jump, untaken conditional); declared vs calling-convention parameters; warning/stop pairing via path conditions; per-source computation and ordered dedup)",
+            "Decides the per-edge / per-definition action table of the NULL-dereference taint analysis (R1..R8): which definitions are sinks and on which state their address is evaluated, that both outcomes of a check stop "
+            "the taint without warning, extern vs generic call handling including clobbering, return handling, register overwrite, that every stop after a positive taint test is paired with a warning, and one "
+            "computation per configured source call with ordered dedup. The iff over all paths of all programs is not decided.",
+            "3/C15", ""),
     "C17": ("match table over graph::Edge vs. the set of function-leaving edge kinds; path conditions of warning sites evaluated as a truth table over atoms; provenance of query arguments; panic-site audit against CFG construction facts",
             "Decides the traversal and decision tables of the reachability checkers: followed edge kinds (R1), sink/source tests and visited guard (R2), CWE367 start node and pair order, CWE243 "
             "warn-decision truth table over (chdir imported, successor exists, chdir reachable, calls chdir+privilege drop) (R3), and totality: no first-neighbour unwrap on BlkEnd nodes (R4). "
